@@ -97,7 +97,12 @@ def search(ctx):
 
     K.search_c02(ctx, FCHK_FREE, ctx.n(800, 3000) * mult)
     from . import _w; _w.search(ctx)  # second group of formats (FCIDUMP text, POSCAR text, FCHK objects, WFN/WFX, QCSchema)
+    from . import _wfround; _wfround.search(ctx)  # wavefunction formats: generated objects through dump_one/load_one
 
 
 def replay(ctx, obj):
+    if obj.get("input", {}).get("kind") == "c01case":
+        from . import _wfround
+
+        return _wfround.replay(obj)
     from . import _w; return _w.replay_or(ctx, obj, K.replay_generic)
